@@ -189,13 +189,16 @@ func (h hsSide) String() string {
 }
 
 // one connection; returns server side, client side, echo verdict, captured hello message
-func oneConn(scfg *bfe_tls.Config, ccfg *tls.Config, data []byte) (srv, cli hsSide, echo string, hello []byte) {
+func oneConn(scfg *bfe_tls.Config, ccfg *tls.Config, data []byte, setup ...func(*bfe_tls.Conn)) (srv, cli hsSide, echo string, hello []byte) {
 	cp, sp := memPipe()
 	tee := &teeConn{Conn: sp}
 	done := make(chan struct{})
 	go func() {
 		defer close(done)
 		sc := bfe_tls.Server(tee, scfg)
+		for _, f := range setup {
+			f(sc)
+		}
 		if err := sc.Handshake(); err != nil {
 			sp.Close()
 			return
